@@ -239,6 +239,15 @@ func (m c14model) String() string {
 	return "{" + strings.TrimSpace(b.String()) + "}"
 }
 
+// short renders a table for messages without flooding them.
+func (m c14model) short() string {
+	x := m.String()
+	if len(x) > 160 {
+		return fmt.Sprintf("%s… (%d rows)", x[:160], len(m))
+	}
+	return x
+}
+
 func (m c14model) apply(st c14stmt) bool {
 	switch st.kind {
 	case "insert", "dup-insert":
@@ -572,7 +581,16 @@ func c14bulk(s *sim.Sim, dir string, backendKind int, sample *[]string) {
 	b := c14open(s, dir, 9000, backendKind)
 	defer b.db.Close()
 	nrows := 1 + s.Choose(sim.SWork, 20)
+	if s.Choose(sim.SWork, 4) == 0 {
+		// large batches: more bound parameters than one statement may carry in some databases, so
+		// an implementation may be tempted to split the batch
+		nrows = []int{400, 501, 1000, 1300}[s.Choose(sim.SWork, 4)]
+		s.Probe("bulk-large-batch")
+	}
 	dupAt := s.Choose(sim.SWork, nrows+1) // == nrows: no violating row
+	if nrows > 100 && s.Choose(sim.SWork, 2) == 0 {
+		dupAt = nrows - 1 - s.Choose(sim.SWork, 3) // late in the batch
+	}
 	pre := s.Choose(sim.SWork, 2) == 1
 	if pre {
 		if _, err := b.db.Exec("INSERT INTO t (k, v) VALUES ('dup', 0)"); err != nil {
@@ -606,7 +624,7 @@ func c14bulk(s *sim.Sim, dir string, backendKind int, sample *[]string) {
 	if err != nil {
 		s.Probe("bulk-insert-rejected")
 		if got.String() != before.String() {
-			s.Fail("oracle", "bulk-partial:"+b.name, fmt.Sprintf("BulkInsert of %d rows failed (%v) but the table changed from %v to %v", nrows, err, before, got))
+			s.Fail("oracle", "bulk-partial:"+b.name, fmt.Sprintf("BulkInsert of %d rows (violating row at index %d) failed (%v) but the table changed from %s to %s", nrows, dupAt, err, before.short(), got.short()))
 		}
 	} else if len(got) != len(before)+nrows {
 		s.Fail("oracle", "bulk-partial:"+b.name, fmt.Sprintf("BulkInsert of %d rows returned nil but the table went from %d to %d rows", nrows, len(before), len(got)))
